@@ -7,6 +7,8 @@ EXTRA = {'C03-m1': ['C10'], 'C06-m2': ['C04'], 'C17-m2': ['C04', 'C17'], 'C16-m1
 res = {}
 names = sorted(d for d in os.listdir(os.path.join(ROOT, 'seeded')) if os.path.isdir(os.path.join(ROOT, 'seeded', d)))
 only = sys.argv[1:]
+if only and os.path.exists(os.path.join(ROOT, 'seeded', 'RESULTS.json')):
+    res = json.load(open(os.path.join(ROOT, 'seeded', 'RESULTS.json')))      # partial re-run: keep the other rows
 for n in names:
     if only and n not in only:
         continue
